@@ -19,7 +19,7 @@ def build(repo, verif, scratch):
     os.makedirs(src)
     shutil.copy(os.path.join(verif, "witness", "Cargo.toml"), scratch)
     shutil.copy(os.path.join(repo, "Cargo.lock"), scratch)
-    for f in ("main.rs", "reference.rs"):
+    for f in ("main.rs", "reference.rs", "grammar.rs"):
         shutil.copy(os.path.join(verif, "witness", "src", f), src)
     for m in MODULES:
         shutil.copy(os.path.join(repo, "src", m + ".rs"), src)
